@@ -855,7 +855,10 @@ func (env *SpecEnv) quant(isForall bool, n *ast.CallExpr) Val {
 		}
 		return false, nil, false
 	}
-	ast.Inspect(n.Args[3], func(x ast.Node) bool {
+	anchorOld := false
+	var insp func(x ast.Node) bool
+	inOld := false
+	insp = func(x ast.Node) bool {
 		if anchorX != nil {
 			return false
 		}
@@ -866,9 +869,17 @@ func (env *SpecEnv) quant(isForall bool, n *ast.CallExpr) Val {
 			}
 			if ok, c, ng := shape(ie.Index); ok {
 				anchorX, anchorC, neg = ie.X, c, ng
+				anchorOld = inOld
 			}
 		case *ast.CallExpr:
 			if fid, ok := ie.Fun.(*ast.Ident); ok {
+				if fid.Name == "old" && len(ie.Args) == 1 && !inOld {
+					// an index expression under old() is anchored at the entry value of its slice
+					inOld = true
+					ast.Inspect(ie.Args[0], insp)
+					inOld = false
+					return false
+				}
 				if fid.Name == "matchAt" && len(ie.Args) == 3 && !mentions(ie.Args[0], k) {
 					if ok, c, ng := shape(ie.Args[1]); ok {
 						anchorX, anchorC, neg = ie.Args[0], c, ng
@@ -892,12 +903,18 @@ func (env *SpecEnv) quant(isForall bool, n *ast.CallExpr) Val {
 			}
 		}
 		return true
-	})
+	}
+	ast.Inspect(n.Args[3], insp)
 	sub := env.fork()
 	j := sym(env.e.fresh("q"))
 	kTerm := j
 	if anchorX != nil {
-		s := env.eval(anchorX)
+		var s Val
+		if anchorOld {
+			s = env.eval(&ast.CallExpr{Fun: ast.NewIdent("old"), Args: []ast.Expr{anchorX}})
+		} else {
+			s = env.eval(anchorX)
+		}
 		if s.K == KSlc {
 			shift := slcOff(s.T)
 			if anchorC != nil {
